@@ -97,6 +97,7 @@ func sortedKVs(m map[string]string) [][2]string {
 
 func genMap(rng *rand.Rand, maxLen int, n int) map[string]string {
 	m := map[string]string{}
+	last := ""
 	for i := 0; i < n; i++ {
 		kl := pick(rng, 0, 1, 2, 3, 8, 16)
 		vl := pick(rng, 0, 1, 5, 20)
@@ -105,8 +106,12 @@ func genMap(rng *rand.Rand, maxLen int, n int) map[string]string {
 		}
 		k := fmt.Sprintf("%d", i) + randBytes(rng, kl)
 		m[k] = randBytes(rng, vl)
+		last = k
 	}
-	if n > 0 && rng.Intn(5) == 0 { // a zero-length key is a valid string of the protocol
+	if n > 0 && rng.Intn(5) == 0 {
+		// a zero-length key is a valid string of the protocol; it replaces the last key so
+		// that the map keeps exactly n entries (the count limits are part of the domain)
+		delete(m, last)
 		m[""] = randBytes(rng, pick(rng, 0, 1, 5))
 	}
 	return m
